@@ -1,6 +1,7 @@
 import Mutagen.Model.Staging
 import Mutagen.Proofs.Staging
 import Mutagen.Proofs.StagingSeq
+import Mutagen.Proofs.StagingCount
 /-!
 # C41 — staging requests only what is missing and enforces limits
 
@@ -174,6 +175,37 @@ theorem transition_respects_limit {s s' : St} {ts : List Change} {rs : List (Opt
         · simp [hro, hsc, hmax, hp, hlt] at h
         · exact ⟨r, rfl, by omega, fun hb => planCount_spec _ _ _ hp hb⟩
     · simp [hro, hsc] at h
+
+/-- **The disk obeys the limit after an executed, fully applied plan.** If the
+scan count is the root's count (the scan just happened and nobody touched the
+root), no 64-bit wrap-around is involved, and the plan is fully applied
+(`Applied`: every transition yields its new entry; where an existing entry is
+*replaced*, the path is free after the removal — `PathFree`, which holds for
+roots whose directories have distinct names; that distinct-names invariant of
+roots built by `insertAt` is the lemma not proved here), then the root's entry
+count afterwards is exactly the planned count `last - Σ old + Σ new`, and it
+is at most the maximum. -/
+theorem transition_applied_within_limit {s s' : St} {ts : List Change} {rs : List (Option Tree)} {m : Bool}
+    (h : transition s ts = (s', .ok rs m)) (hmax : s.max ≠ 0) (hscan : s.last = rootCount s.root)
+    (hb : s.last + totalNew ts < two64)
+    (happ : Applied (if s.storeInit then some s.store else none) s.root ts) :
+    rootCount s'.root + totalOld ts = s.last + totalNew ts ∧ rootCount s'.root ≤ s.max := by
+  obtain ⟨r, _, hle, hspec⟩ := transition_respects_limit h hmax
+  have hr := hspec hb
+  have hroot := transition_ok_root h
+  have hcnt := applyAll_count _ _ _ happ
+  rw [← hroot] at hcnt
+  unfold rootCount at *
+  constructor <;> omega
+
+/-- Pure deletions and pure creations need no side condition: `PathFree` only
+constrains transitions that replace an existing entry by a new one. -/
+theorem pathFree_of_deletion_or_creation (root : Children) (t : Change)
+    (h : t.old = none ∨ t.new = none) : PathFree root t := by
+  intro h1 h2
+  rcases h with h | h
+  · simp [h] at h1
+  · simp [h] at h2
 
 /-- A refused plan (too many entries) leaves the root and the store untouched
 and reports the old entries as results. -/
